@@ -36,6 +36,8 @@ type rpf struct {
 	steps    int
 	inTableLoop int
 	multiHook func(call *ast.CallExpr, callee types.Object) ([]*Val, bool)
+	maxSteps  int // step budget of one fold (default 100000)
+	effectCalls bool // statement-level calls of repository functions are folded for their effect on fold-local storage
 	unroll    int // > 0: plain `for` loops over scalar state are unrolled up to this many iterations (constant propagation with bounded unrolling); 0: such loops are outside the fragment
 }
 
@@ -56,6 +58,8 @@ func (c *Ctx) rpfCall(fd *ast.FuncDecl, p *packages.Package, args []*Val, hooks 
 		r.stHook = hooks.stHook
 		r.multiHook = hooks.multiHook
 		r.unroll = hooks.unroll
+		r.effectCalls = hooks.effectCalls
+		r.maxSteps = hooks.maxSteps
 	}
 	defer func() {
 		if x := recover(); x != nil {
@@ -178,7 +182,11 @@ func (r *rpf) block(stmts []ast.Stmt) *rpfReturn {
 
 func (r *rpf) tick(n ast.Node) {
 	r.steps++
-	if r.steps > 100000 {
+	limit := 100000
+	if r.maxSteps > 0 {
+		limit = r.maxSteps
+	}
+	if r.steps > limit {
 		rpfFail("%s: step budget exceeded", r.c.pos(n.Pos()))
 	}
 }
@@ -240,6 +248,18 @@ func (r *rpf) stmt(s ast.Stmt) *rpfReturn {
 						r.assign(l, vals[i], x.Tok == token.DEFINE)
 					}
 					return nil
+				}
+			}
+			// v, ok := m[k] on a nil map: the zero value and false
+			if len(x.Rhs) == 1 && len(x.Lhs) == 2 {
+				if ix, ok := ast.Unparen(x.Rhs[0]).(*ast.IndexExpr); ok {
+					if _, isMap := info.TypeOf(ix.X).Underlying().(*types.Map); isMap {
+						if m := r.expr(ix.X); m.K == VNil {
+							r.assign(x.Lhs[0], zeroOf(info.TypeOf(ix)), x.Tok == token.DEFINE)
+							r.assign(x.Lhs[1], vbool(false), x.Tok == token.DEFINE)
+							return nil
+						}
+					}
 				}
 			}
 			rpfFail("%s: unsupported multi-assignment", r.c.pos(x.Pos()))
@@ -405,6 +425,16 @@ func (r *rpf) stmt(s ast.Stmt) *rpfReturn {
 		if x.Tok == token.BREAK && x.Label == nil {
 			panic(rpfBreak{})
 		}
+	case *ast.DeferStmt:
+		// a deferred effect stays in the fragment only when the caller's hook claims the call (its arguments are
+		// folded here, at the defer statement, as Go does)
+		if r.callHook != nil {
+			callee := typeutil.Callee(info, x.Call)
+			if _, ok := r.callHook(r, x.Call, callee); ok {
+				return nil
+			}
+		}
+		rpfFail("%s: defer outside the pure fragment", r.c.pos(x.Pos()))
 	case *ast.ExprStmt:
 		// an expression statement is an effect; it stays in the fragment only when the caller's hook
 		// claims the call (it then records the folded arguments as an "effect" of the term)
@@ -412,6 +442,27 @@ func (r *rpf) stmt(s ast.Stmt) *rpfReturn {
 			callee := typeutil.Callee(info, call)
 			if _, ok := r.callHook(r, call, callee); ok {
 				return nil
+			}
+		}
+		// a call of a repository function or method for its effect: folded like any other call; the only effects the
+		// fragment admits are stores into storage created inside the fold
+		if call, ok := x.X.(*ast.CallExpr); ok {
+			if fn, isFn := typeutil.Callee(info, call).(*types.Func); isFn && r.c.funcDecl[fn] != nil && r.c.funcDecl[fn].Body != nil && r.effectCalls {
+				r.callMulti(call)
+				return nil
+			}
+		}
+		// copy(dst, src) into storage created inside this fold
+		if call, ok := x.X.(*ast.CallExpr); ok && len(call.Args) == 2 {
+			if b, isB := typeutil.Callee(info, call).(*types.Builtin); isB && b.Name() == "copy" {
+				dst, src := r.expr(call.Args[0]), r.expr(call.Args[1])
+				if dst.K == VList && src.K == VList && dst.Local {
+					for i := 0; i < len(dst.L) && i < len(src.L); i++ {
+						dst.L[i] = src.L[i]
+					}
+					return nil
+				}
+				rpfFail("%s: copy into storage not created inside the fold", r.c.pos(x.Pos()))
 			}
 		}
 		rpfFail("%s: expression statement outside the pure fragment", r.c.pos(x.Pos()))
@@ -463,9 +514,27 @@ func (r *rpf) assign(l ast.Expr, v *Val, define bool) {
 				return
 			}
 		}
+		// field of a struct element of a list created inside this fold: result[k].f = ...
+		if ix, isIx := sel.X.(*ast.IndexExpr); isIx {
+			if base, err := r.tryExpr(ix); err == nil && base.K == VStruct && base.Local && base.Fields != nil {
+				base.Fields[sel.Sel.Name] = v
+				return
+			}
+		}
 	}
 	if ix, isIx := l.(*ast.IndexExpr); isIx {
-		// element of a list created inside this fold by make(): local scratch storage
+		// element of a list created inside this fold by make(): local scratch storage (also through a field of a
+		// struct value created inside the fold: result[j].codewords[i] = ...)
+		if _, isId := ix.X.(*ast.Ident); !isId {
+			if base, err := r.tryExpr(ix.X); err == nil && base.K == VList && base.Local {
+				i := r.expr(ix.Index)
+				if !i.isInt() || i.I < 0 || i.I >= int64(len(base.L)) {
+					rpfFail("%s: index %v outside a local list of %d elements", r.c.pos(l.Pos()), i, len(base.L))
+				}
+				base.L[i.I] = v
+				return
+			}
+		}
 		if bid, isId := ix.X.(*ast.Ident); isId {
 			obj := r.p.TypesInfo.Uses[bid]
 			if cur, has := r.env[obj]; has && cur.K == VList && cur.Local {
@@ -535,6 +604,29 @@ func (r *rpf) callMulti(call *ast.CallExpr) []*Val {
 				panic(err)
 			}
 			return res
+		}
+		// multi-result method of a repository type on a struct receiver value: fold the body with the receiver bound
+		if fd := r.c.funcDecl[fn]; fd != nil && fd.Recv != nil && fd.Body != nil {
+			if sel, ok := call.Fun.(*ast.SelectorExpr); ok {
+				if _, isMethod := r.p.TypesInfo.Selections[sel]; isMethod {
+					if base := r.expr(sel.X); base.K == VStruct {
+						var args []*Val
+						for _, a := range call.Args {
+							args = append(args, r.expr(a))
+						}
+						dp := r.c.declPkg[fd]
+						hooks := &rpf{callHook: r.callHook, selHook: r.selHook, idxHook: r.idxHook, stHook: r.stHook, multiHook: r.multiHook, unroll: r.unroll, maxSteps: r.maxSteps, effectCalls: r.effectCalls, env: map[types.Object]*Val{}}
+						if ro := recvObj(dp, fd); ro != nil {
+							hooks.env[ro] = base
+						}
+						res, err := r.c.rpfCall(fd, dp, args, hooks)
+						if err != nil {
+							panic(err)
+						}
+						return res
+					}
+				}
+			}
 		}
 	}
 	rpfFail("%s: call outside the pure fragment", r.c.pos(call.Pos()))
@@ -686,9 +778,10 @@ func (r *rpf) expr(e ast.Expr) *Val {
 		if base.K == VStr {
 			return vstr(base.S[lo:hi])
 		}
-		// a copy: later stores into it are not seen through the original (sound here because the fragment only
-		// admits stores into lists created inside the fold, and the re-sliced name replaces the original)
-		return &Val{K: VList, L: append([]*Val(nil), base.L[lo:hi]...), T: base.T, Local: base.Local}
+		// shares the element storage with the original, as a Go slice does (stores through either are seen by
+		// both); the capacity is cut at hi, so an append to the result reallocates instead of writing into the
+		// original's tail
+		return &Val{K: VList, L: base.L[lo:hi:hi], T: base.T, Local: base.Local}
 	case *ast.UnaryExpr:
 		if x.Op == token.AND {
 			if _, ok := x.X.(*ast.CompositeLit); ok {
@@ -829,7 +922,18 @@ func (r *rpf) expr(e ast.Expr) *Val {
 					rpfFail("%s: make with a non-constant length", r.c.pos(x.Pos()))
 				}
 				out := &Val{K: VList, T: info.TypeOf(x), Local: true}
+				elem := info.TypeOf(x).Underlying().(*types.Slice).Elem()
+				st, isStruct := elem.Underlying().(*types.Struct)
 				for i := int64(0); i < n.I; i++ {
+					if isStruct {
+						// zero struct elements: local storage whose fields may be assigned (result[k].f = ...)
+						e := &Val{K: VStruct, T: elem, Local: true, Fields: map[string]*Val{}}
+						for f := 0; f < st.NumFields(); f++ {
+							e.Fields[st.Field(f).Name()] = zeroOf(st.Field(f).Type())
+						}
+						out.L = append(out.L, e)
+						continue
+					}
 					out.L = append(out.L, vint(0))
 				}
 				return out
@@ -870,7 +974,7 @@ func (r *rpf) expr(e ast.Expr) *Val {
 							}
 							dp := r.c.declPkg[fd]
 							ro := recvObj(dp, fd)
-							hooks := &rpf{callHook: r.callHook, selHook: r.selHook, idxHook: r.idxHook, stHook: r.stHook, env: map[types.Object]*Val{}}
+							hooks := &rpf{callHook: r.callHook, selHook: r.selHook, idxHook: r.idxHook, stHook: r.stHook, multiHook: r.multiHook, unroll: r.unroll, maxSteps: r.maxSteps, effectCalls: r.effectCalls, env: map[types.Object]*Val{}}
 							if ro != nil {
 								hooks.env[ro] = base
 							}
@@ -957,6 +1061,10 @@ func (r *rpf) binop(op token.Token, a, b *Val, t types.Type, pos token.Pos) *Val
 			}
 			return vbool(!eq)
 		}
+	}
+	if a.K == VStruct && b.K == VStruct && a.Ptr && b.Ptr && (op == token.EQL || op == token.NEQ) {
+		// pointers to struct values: identity of the folded object
+		return vbool((a == b) == (op == token.EQL))
 	}
 	if a.K == VStr && b.K == VStr {
 		switch op {
